@@ -10,6 +10,9 @@ use std::time::SystemTime;
 use super::findings::root;
 
 pub fn bin_path() -> String {
+    if let Ok(p) = std::env::var("VERIF_PASFMT_BIN") {
+        return p;
+    }
     format!("{}/target/repo-bin/release/pasfmt", root())
 }
 
